@@ -402,11 +402,17 @@ class FileInfo(os.PathLike):
         return {
             "path": self.path,
             "times": [
-                self.times[0].strftime("%Y-%m-%dT%H:%M:%S.%f"),
-                self.times[1].strftime("%Y-%m-%dT%H:%M:%S.%f")
+                self._time_to_json(self.times[0]),
+                self._time_to_json(self.times[1])
             ],
             "attr": self.attr,
         }
+
+    @staticmethod
+    def _time_to_json(time):
+        # strftime("%Y") does not pad years < 1000 on every platform (glibc
+        # writes "1" for year 1), but strptime("%Y") needs four digits:
+        return "%04d" % time.year + time.strftime("-%m-%dT%H:%M:%S.%f")
 
 
 class CSV(FileHandler):
